@@ -488,6 +488,11 @@ M("C01", "fchk-reader-pure-kind-inverted", F + "fchk.py", r"\[\"p\" if shell_typ
 M("C02", "fchk-reader-counter-per-shell", F + "fchk.py", r"        counter \+= n\n    del shell_map", "        counter += 1\n    del shell_map", "C02-R27")
 T("C01", "fchk-shell-types-by-comprehension-free-loop", F + "fchk.py", r"shell_types\.append\(-1 \* shell\.angmoms\[0\]\)", "shell_types.append(-int(shell.angmoms[0]))")
 
+M("C01", "wfn-type-numbers-skip-absent-angmom", F + "wfn.py", r"    for angmom in range\(max\(\[shell\.angmoms\[0\] for shell in obasis\.shells\]\) \+ 1\):", "    for angmom in sorted({shell.angmoms[0] for shell in obasis.shells}):", "C01-R18")
+M("C01", "wfn-centres-zero-based", F + "wfn.py", r"cntrs = \[shell\.icenter \+ 1 for shell", "cntrs = [shell.icenter for shell", "C01-R18")
+M("C01", "wfn-type-count-from-zero", F + "wfn.py", r"    angmom_prim = \{\}\n    count = 1\n", "    angmom_prim = {}\n    count = 0\n", "C01-R18")
+T("C01", "wfn-type-numbers-from-cumulative-sizes", F + "wfn.py", r"        count \+= len\(obasis\.conventions\[angmom, \"c\"\]\)\n", "        count = count + (angmom + 1) * (angmom + 2) // 2\n")
+
 
 def _run_one(args):
     spec, repo = args
